@@ -511,6 +511,9 @@ func VerifC18AutoStep() {
 	}
 }
 
+// VerifC03AutoStep: the lock-key clause of the same runs (C03's spec lists it).
+func VerifC03AutoStep() { VerifC18AutoStep() }
+
 var c03Queries = []string{
 	"SELECT * FROM t WHERE a > ? FOR UPDATE",
 	"SELECT * FROM t WHERE a > ? ORDER BY b DESC LIMIT 1 FOR UPDATE",
